@@ -969,6 +969,12 @@ MK_CONTEXTS = [
                                        "fileext": "pdf"}},
     {"output": {"filename": "old", "suffix": "_S"}},
     {"plot": {"name": "a"}, "output": {"filetype": "csv", "changed": False}},
+    # existing names that are empty strings are still existing names
+    {"plot": {"name": "a"}, "output": {"filename": "old", "fileext": "", "dirname": ""}},
+    # (an empty existing prefix/suffix is not generated: whether the empty string is removed
+    # after it was "applied" is unobservable in any file name, the model would over-demand)
+    {"plot": {"name": "a"}, "output": {"fileext": ""}},
+    {"plot": {"name": "a"}, "output": {"filename": "", "dirname": ""}},
 ]
 
 
